@@ -60,6 +60,10 @@ def analyse_variant(pid, patch, tier='quick'):
       ctx = run_property(pid, tier, tmp)
     except AnalysisError as e:
       return 'analysis-error: %s' % e, []
+    if os.environ.get('SA_VERBOSE'):
+      for f in ctx.findings:
+        if f.key not in known:
+          print('    %s [%s] %s -- %s' % (f.where, f.rule, f.construct, f.what[:400]))
     return 'applied', [f.key for f in ctx.findings if f.key not in known]
   finally:
     shutil.rmtree(tmp, ignore_errors=True)
